@@ -24,6 +24,7 @@
 //	snap-flatten-aliasing   KNOWN FINDING: slot-only divergence on a StateDB whose own layer object was flattened into a
 //	                        diff parent (diffLayer.flatten shares the child's inner storage map); only inside famFlattenAliasing
 //	create-account-balance  CreateAccount over an existing account did not carry its balance over
+//	refund-panic            SubRefund panicked although gas <= refund, or did not although gas > refund
 //	panic / db-error        unexpected panic, Commit error, memoised database error
 package main
 
@@ -787,7 +788,12 @@ func (cr *caseRun) do(p op) string {
 	if p.code == "AB" && p.a == ripemdID && p.v == 0 && st.Exist(addrOf(ripemdID)) && st.Empty(addrOf(ripemdID)) {
 		p.touchRM = true
 	}
+	refundBefore := st.GetRefund()
 	res, pan := e.exec(p)
+	if p.code == "SR" && pan != (uint64(p.v) > refundBefore) {
+		// documented: SubRefund panics iff the counter would go below zero
+		cr.o.Fail(cr.step, "refund-panic", fmt.Sprintf("SubRefund(%d) with refund counter %d: panicked=%v", p.v, refundBefore, pan))
+	}
 	if pan && !(p.code == "SR" || p.code == "RV") {
 		cr.o.Fail(cr.step, "panic", "unexpected panic in "+p.code)
 	}
